@@ -148,7 +148,8 @@ C15 = Prop(
          "entries per group of all three kinds with/without letter, env hint, default, reversible toggles, metavars, "
          "descriptions of 0-40 words incl. words of 38/41/79/120 characters, double blanks and tabs, application names of "
          "1-30 characters, about texts; every text is produced on three streams (fresh string stream, string stream with "
-         "prior content, non-seekable ostream) and compared byte for byte. Non-trivial: at least one entry.",
+         "prior content, non-seekable ostream) and compared byte for byte. Non-trivial: at least one entry. " \
+                "Group names are created in non-alphabetical order; a third of the cases request every entry once more by name before printing, a third parse first (empty command line, both entry points); the text is also demanded from a move-constructed, a move-assigned and a twice-moved parser.",
     harness=HARNESS, search=lambda dis, rng: gen_c15("thorough", rng),
     theorem_hint="NitroVerif.Props.C15.*",
     level_text="Lean 4: the option section lists the default group then the groups in creation order, every entry once in "
